@@ -13,6 +13,10 @@ TB = ("Trusted base: Lean 4.33 kernel with axioms propext, Classical.choice, Quo
       "generated cases; agreement on unsampled inputs is assumed. ")
 
 CLAIMS = {
+    "C01": dict(
+        text="Lean theorems: for each of the four drafts (REGENERATED tables), every reference-free schema of the shape the draft's metaschema prescribes and every instance, is_valid / no first error / an empty iter_errors hold exactly when the specification Spec.valid says valid, the run ends normally or is closed at the first error, and nothing is raised (verdict_agrees, errors_empty_iff_valid, isValid_agrees) - one lemma per keyword function against the specification's clause, composed through nesting by induction on the schema; valid_fuel_stable; additional_props_spec (re.search per pattern, properties keys); type_gating. The specification is validated on every run against the official JSON-Schema-Test-Suite (all reference-free groups of the four drafts + bignum). Tie: VAL channel; SPEC channel (Spec.valid, shape, domain predicates) as oracle for the implementation's verdict on generated schemas (keyword interactions, nested applicators, type gating) x schema-directed instances; bridge 'check_schema accepts => Spec.shaped' checked on every generated schema.",
+        note=TB + "Domain as the property states it: no $ref, no format checker, regular expressions from the subset on which Python re and ECMA 262 agree (re.search is an oracle), multipleOf/divisibleBy operands in C09's exact sub-domain (integer divisors up to 2^53: Spec.numSafe), Draft 3 type names known (others raise the documented UnknownType), distinct object keys. The bridge from check_schema to Spec.shaped is sampled (C11), not proved.",
+        ref="6 C01", tech="Lean 4 proof (per-keyword equivalence with an independent specification, induction over nesting) + specification validated on the official suite + differential correspondence"),
     "C03": dict(
         text="Lean theorems: on every schema of the shape the draft's metaschema prescribes (Spec.shapedR, references allowed) the evaluator with the REGENERATED draft tables ends only normally, closed early, out of fuel, or with the documented exceptions (RefResolutionError; UnknownType in Draft 3 only; a user format function's own exception when a checker is attached) — never with an undocumented exception — unless a reference met on the way designates a non-schema (guarded_no_crash, guard_simulation, no_crash); for reference-free shaped schemas unconditionally (no_crash_reffree) and it terminates within fuel 2*size+2 (terminates_reffree); is_valid/validate inherit this (entry_points_benign). Tie: VAL/SPEC channels: for every schema check_schema accepts, Spec.shapedR must hold (bridge to the theorems' hypothesis, checked on every generated candidate); monitor: exception class escaping the four entry points, with and without a format checker, on accepted (incl. malformed-but-accepted) schemas x instances incl. huge numbers.",
         note=TB + "The bridge 'check_schema accepts => shapedR' is sampled (it is C11's subject), not proved. Unguarded reference cycles ({\"$ref\": \"#\"}: undefined by the drafts) and references to non-schemas are outside the domain and recognised by the model (fuel / the guard's marker). A-regex: every regular expression compiles.",
@@ -57,6 +61,10 @@ CLAIMS = {
         text="Lean theorems over every evaluation and every history of operations: store unchanged with cache_remote off, store only grows, retrieval log only grows, FetchInv invariant hence each document successfully fetched at most once per resolver with caching on (fetch_at_most_once), documents in the store are served without retrieval (served_locally), handler failures are RefResolutionError and are not cached/memoised. Tie: HIST channel with counting handlers under six cache configurations and failing handlers; monitors: fetch counts, store keys, identical results across configurations, bundled metaschemas resolved with urlopen patched to refuse.",
         note=TB + "A-handlers; A-url (urllib.parse functions as oracles). Cache transparency of results (cache_transparent) is monitored, not yet proved.",
         ref="6 C15", tech="Lean 4 proof (state-relation invariants closed under the evaluator) + history correspondence + fetch-count monitor"),
+    "C16": dict(
+        text="Lean theorems over a heap model of checkers, keyword tables, classes, format checkers and validator instances (objects with identity; 'copy' and 'alias' are different model terms): wf_initial/wf_preserved (old objects never point at new cells), derive_frame (an operation changes no existing cell except the one dict it is documented to mutate), derive_preserves_probes and derive_preserves_checkers_and_classes, checks_affects_that_checker_only, clsChecks_affects_later_only / clsChecks_seen_by_later, extend_nochange_same (incl. the id key), override_one_keyword(_probes,_layer), types_arg_is_per_instance; with machine-checked counterexamples where the blanket wording is false (fc.checks mutates its own dict; create(version=...) with a colliding metaschema id is visible through the global registries). Tie: DER channel on random sequences of derivation operations interleaved with probes of every object created so far; monitor compares every object's probe answers with those recorded at its creation.",
+        note=TB + "Keyword overrides, type predicates and format functions are drawn from a fixed menu known to both sides. Registering a class whose metaschema id collides with a registered one re-points the global registry (documented behaviour of validates(); DESIGN section 7, F-11): queries that read the registries are excluded exactly as the theorems state.",
+        ref="6 C16", tech="Lean 4 proof (frame and reachability invariant over a heap) + differential correspondence + probe-replay monitor"),
     "C17": dict(
         text="Lean theorems about ErrorTree for every error list in every arrival order: walk_finds, node_errors, walk_isSome_iff, contains_spec, keys_spec, total_errors_spec (= distinct (path, keyword) pairs), node_inst, getitem_errorfree, getitem_child, order_independent. Tie: TREE channel on error lists of real validations in all permutations (<= 4 errors) with lookups; the statements are also evaluated on the implementation's tree.",
         note=TB + "The model's build is total by construction; that the constructor never raises is decided by the correspondence/monitor (repaired defect). Known finding: a propertyNames error filed last at a node makes indexing error-free elements raise.",
